@@ -102,7 +102,7 @@ theorem multiwayMerge3Combined_run {lt : α → α → Bool} (hlt : SWO lt) {M3 
   unfold multiwayMerge3Combined
   have hn' : ¬ seqs.length ≠ 3 := by simp [hn]
   simp only [hn', if_false, Option.bind_eq_bind, Option.pure_def, Option.bind_some]
-  rcases prepareUnguarded_spec hlt true seqs hsorted hne with ⟨m, hp, hm⟩ | ⟨o, mn, ms, hp, hS, hR⟩
+  rcases prepareUnguarded_spec hlt true seqs hsorted hne with ⟨m, hp, hm⟩ | ⟨o, mn, ms, hp, hS, hR, _⟩
   · -- an empty sequence: everything is merged with end-guards from the two others
     obtain ⟨s0, s1, s2, rfl⟩ := list3 hn
     have hm3 : m < 3 := by
@@ -208,7 +208,7 @@ theorem multiwayMerge4Combined_run {lt : α → α → Bool} (hlt : SWO lt) {M3 
   unfold multiwayMerge4Combined
   have hn' : ¬ seqs.length ≠ 4 := by simp [hn]
   simp only [hn', if_false, Option.bind_eq_bind, Option.pure_def, Option.bind_some]
-  rcases prepareUnguarded_spec hlt true seqs hsorted hne with ⟨m, hp, hm⟩ | ⟨o, mn, ms, hp, hS, hR⟩
+  rcases prepareUnguarded_spec hlt true seqs hsorted hne with ⟨m, hp, hm⟩ | ⟨o, mn, ms, hp, hS, hR, _⟩
   · obtain ⟨s0, s1, s2, s3, rfl⟩ := list4 hn
     have hm4 : m < 4 := by
       by_cases c : m < 4
